@@ -180,6 +180,52 @@ def rule_span_prov(facts):
     return r
 
 
+def _int_const(x):
+    m = re.match(r"^(?:const )?(\d+)_(?:usize|u\d+|i\d+|isize)$", x.strip())
+    return int(m.group(1)) if m else None
+
+
+def lower_bound(roots, guard_le=None, depth=0):
+    """Sound lower bound (in the naturals) of an unsigned provenance term set; 0 = nothing known.
+    guard_le=(a, b): the fact a <= b holds (formatted roots), so `b - a` is >= 0 and does not wrap."""
+    if not roots or depth > 40:
+        return 0
+    return min(_lb1(x, guard_le, depth) for x in roots)
+
+
+def _lb1(x, g, d):
+    if x[0] == "const":
+        c = _int_const(x[1])
+        return c if c is not None else 0
+    if x[0] == "field" and isinstance(x[1], tuple) and x[1][0] == "bin" and x[2] == "0":
+        return _lb1(x[1], g, d + 1)
+    if x[0] == "bin":
+        op = x[1].replace("WithOverflow", "").replace("Unchecked", "")
+        a, bb = x[2], x[3]
+        if op == "Add":
+            return lower_bound(a, g, d + 1) + lower_bound(bb, g, d + 1)
+        if op == "Mul":
+            return lower_bound(a, g, d + 1) * lower_bound(bb, g, d + 1)
+        if op == "Div":
+            cs = [_int_const(y[1]) if y[0] == "const" else None for y in bb]
+            if cs and all(c for c in cs):
+                return lower_bound(a, g, d + 1) // max(cs)
+            return 0
+        if op == "Sub":
+            cs = [_int_const(y[1]) if y[0] == "const" else None for y in bb]
+            if cs and all(c is not None for c in cs):
+                return max(0, lower_bound(a, g, d + 1) - max(cs))
+            return 0      # incl. the guarded `cursor - len` (>= 0)
+        return 0
+    if x[0] == "call" and x[1] == "max":
+        return max(lower_bound(y, g, d + 1) for y in x[3])
+    if x[0] == "call" and x[1] == "min":
+        return min(lower_bound(y, g, d + 1) for y in x[3])
+    if x[0] == "call" and x[1] in ("saturating_add", "wrapping_add") and all(lower_bound(y, g, d + 1) < 2 ** 32 for y in x[3]):
+        return sum(lower_bound(y, g, d + 1) for y in x[3])
+    return 0
+
+
 def rule_stream(facts):
     r = RuleResult("STREAM")
     from rules_hooks import has_field
@@ -264,6 +310,23 @@ def rule_stream(facts):
         why = "pulls from the iterator only under tokens.len() <= cursor=%s, serves tokens.get(cursor)=%s" % (guard_ok, get_ok)
     r.ob(ok)
     r.samples.append({"Stream::next": why})
+    # (4) when the refill is written with the `take(n)` adaptor, n is provably >= 1 under the guard: a refill that can
+    #     pull nothing while the iterator still has items makes the stream report a premature end of input
+    for i, bl, t, f in calls(b):
+        if f is None or f["name"] != "take" or len(t["args"]) < 2:
+            continue
+        if not any(x == ("arg", 1, "iter") for x in pv.of_operand(t["args"][0]["op"])):
+            continue
+        n_roots = pv.of_operand(t["args"][1]["op"])
+        low = lower_bound(n_roots, guard_le=("len(arg1.tokens)", "arg2"))
+        ok4 = low >= 1
+        r.ob(ok4)
+        r.samples.append({"Stream::next refill amount": "take(%s): lower bound %d" % (fmt_roots(n_roots)[:120], low)})
+        if not ok4:
+            r.violations.append(V("STREAM", b["qname"], "refill amount",
+                                  "the refill pulls take(n) items with n = %s, which is not provably >= 1 when tokens.len() <= cursor "
+                                  "(lower bound %d): a refill of 0 items leaves tokens.get(cursor) empty although the iterator has more, "
+                                  "so the parse sees a premature end of input" % (fmt_roots(n_roots)[:300], low), b["file"], bl["line"]))
     if not ok:
         r.violations.append(V("STREAM", b["qname"], "refill discipline",
                               "Stream::next must pull from the iterator only when tokens.len() <= cursor, append the pulled items to the "
@@ -363,9 +426,22 @@ def rule_input_misc(facts):
             r.violations.append(V("INPUT-MISC", b["qname"], "seek-on-rewind guard",
                                   "IoInput::next must re-seek whenever the requested cursor differs from the reader position (in either "
                                   "direction): %s" % why, *loc(b)))
+        # the byte is fetched by a primitive that cannot mistake a transient condition for end of input: `read_exact` (retries
+        # ErrorKind::Interrupted, fails on a short read), or a bare `read` in a body that itself examines ErrorKind::Interrupted
+        rd = [f["name"] for _, _, t, f in calls(b) if f is not None and f["name"] in ("read", "read_exact", "read_buf", "read_to_end", "bytes", "read_vectored")]
+        mentions_interrupted = any("Interrupted" in str(x) for bl in b["blocks"] for x in ([s_.get("rv") for s_ in bl["stmts"] if s_["k"] == "assign"] + [bl["term"]]))
+        ok = bool(rd) and (all(x == "read_exact" for x in rd) or mentions_interrupted)
+        r.ob(ok)
+        r.samples.append({"IoInput::next read primitive": rd})
+        if not ok:
+            r.violations.append(V("INPUT-MISC", b["qname"], "read primitive",
+                                  "IoInput::next fetches the next byte with %s: a bare read() returns Err(Interrupted) / Ok(0) in situations that are "
+                                  "not the end of the input, and mapping those to None makes the parse see a premature end of input (an implicit "
+                                  "end() then accepts a prefix); use read_exact or handle ErrorKind::Interrupted" % (rd or "no std::io::Read call"), *loc(b)))
     elif "std" in facts.features:
         r.errors.append("anchor IoInput::next: %d bodies" % len(bs))
     r.explanation = ("Graphemes input segments with graphemes(true) (extended clusters) at all %d call sites; the &str / grapheme cursor advances "
-                     "by len_utf8()/len() of the item decoded at that cursor; IoInput re-seeks exactly when cursor != last_cursor" % len(gs))
+                     "by len_utf8()/len() of the item decoded at that cursor; IoInput re-seeks exactly when cursor != last_cursor and reads "
+                     "through read_exact" % len(gs))
     r.nontrivial = len(gs) + 3
     return r
